@@ -33,9 +33,24 @@ def jobs(tier, seed):
     return [{"name": f"kde-{j}", "seed": seed, "j": j, "n_cases": 16 if tier == "quick" else 130} for j in range(n_jobs)]
 
 
+INT_TYPES = [np.int8, np.uint8, np.int16, np.uint16, np.int32, np.int64]
+
+
 def gen_sample(rng):
-    kind = str(rng.choice(["normal", "t3", "ties", "outliers", "bimodal", "skewed", "trimodal", "uniform"]))
+    kind = str(rng.choice(["normal", "t3", "ties", "outliers", "bimodal", "skewed", "trimodal", "uniform", "counts"]))
     n = int(rng.choice([3, 4, 5, 8, 20, 60, 200, 1000, 5000, 20000], p=[.06, .05, .05, .08, .14, .17, .2, .15, .07, .03]))
+    if kind == "counts":
+        # integer-typed data (counts, ADC values, pixel values) in the narrow types such data come in, using a good part of the type's range
+        dt = INT_TYPES[int(rng.integers(len(INT_TYPES)))]
+        ii = np.iinfo(dt)
+        lo_t, hi_t = (float(ii.min), float(ii.max)) if dt is not np.int64 else (-1e12, 1e12)   # (int64: values a float64 still resolves finely)
+        span = hi_t - lo_t
+        centre = lo_t + span * rng.uniform(0.3, 0.7)
+        v = np.rint(centre + rng.normal(size=n) * span * rng.uniform(0.02, 0.12))
+        v = np.clip(v, lo_t, hi_t)
+        if np.unique(v).size < 2:
+            v[0] = v[0] + 1 if v[0] < ii.max else v[0] - 1
+        return f"counts:{np.dtype(dt).name}", v.astype(dt)
     if kind == "normal":
         s = rng.normal(size=n)
     elif kind == "t3":
@@ -114,7 +129,10 @@ def run_job(job, rec):
     a_cdf = attach(GaussianKDE, "cdf")
 
     for c in range(job["n_cases"]):
-        kind, s = gen_sample(rng)
+        kind, s_in = gen_sample(rng)
+        s = np.asarray(s_in, float)       # the harness works on the values as floats; the library is given the array as typed
+        if kind.startswith("counts"):
+            rec.count("cases:integer_typed_sample")
         n = s.size
         rngw = s.max() - s.min()
         mode = str(rng.choice(["user", "user", "rule", "rule", "cv"]))
@@ -137,12 +155,12 @@ def run_job(job, rec):
         rec.context = {"case": c, "kind": kind, "n": n, "mode": mode, "scale": float(np.std(s)), "location": float(np.mean(s)), **{k: v for k, v in kw.items()}}
         np_seed = int(rng.integers(2**31))
         np.random.seed(np_seed)
-        before = s.copy()
-        kde = guarded(GaussianKDE, s, **kw)
+        before = s_in.copy()
+        kde = guarded(GaussianKDE, s_in, **kw)
         if isinstance(kde, Raised):
             rec.violation("raised", f"GaussianKDE construction raised {kde!r}", rec.context)
             continue
-        rec.check(np.array_equal(before, s), "input-modified", "the sample array was modified", rec.context)
+        rec.check(np.array_equal(before, s_in) and before.dtype == s_in.dtype, "input-modified", "the sample array was modified", rec.context)
         h = float(kde.h)
         if not rec.check(np.isfinite(h) and h > 0, "bandwidth", f"bandwidth {h!r}", rec.context):
             continue
